@@ -5,7 +5,7 @@ CONSTANTS
   LoadFix = TRUE
   LoadReach <- AllPlacements
   InstSet = {1, 2, 3, 4, 5, 6, 7}
-  SpellSet = {1, 2, 3, 4, 5, 6, 7, 8, 11, 12, 13, 14, 15, 16, 17, 18}
+  SpellSet = {1, 2, 3, 4, 5, 6, 7, 8, 11, 12, 13, 14, 15, 16, 17, 18, 20}
   MaxUnits = 3
   ProtoInsts = {}
   ProtoSpells = {}
